@@ -69,6 +69,26 @@ class ExtractError(Exception):
     pass
 
 
+SLOTS = int(os.environ.get('VERIF_EXTRACT_SLOTS', '8'))
+KEEP_FACTS = 160
+
+
+def _take_slot():
+    """an exclusive build directory: slot 0 is `tgt-<config>` itself (a single run behaves as it always did); further
+    slots are only used while the earlier ones are busy (parallel regression runs over many scratch trees)"""
+    for k in range(SLOTS):
+        f = open(os.path.join(CACHE, 'lock-slot-%d' % k), 'w')
+        try:
+            fcntl.flock(f, fcntl.LOCK_EX | fcntl.LOCK_NB)
+            return k, f
+        except OSError:
+            f.close()
+    k = os.getpid() % SLOTS
+    f = open(os.path.join(CACHE, 'lock-slot-%d' % k), 'w')
+    fcntl.flock(f, fcntl.LOCK_EX)
+    return k, f
+
+
 def extract(config='default'):
     """returns (facts_path, info dict)"""
     repo = repo_dir()
@@ -77,13 +97,25 @@ def extract(config='default'):
     fcntl.flock(lock, fcntl.LOCK_EX)
     try:
         build_driver()
-        h = tree_hash(repo)
-        out = os.path.join(CACHE, 'facts-%s-%s.json' % (config, h))
-        info = {'config': config, 'tree_hash': h, 'repo': repo, 'cached': True}
+    finally:
+        fcntl.flock(lock, fcntl.LOCK_UN)
+        lock.close()
+    h = tree_hash(repo)
+    out = os.path.join(CACHE, 'facts-%s-%s.json' % (config, h))
+    info = {'config': config, 'tree_hash': h, 'repo': repo, 'cached': True}
+    if os.path.exists(out) and os.path.getsize(out) > 1000:
+        return out, info
+    # one extraction per tree and configuration at a time; different trees proceed in parallel, each in its own
+    # build directory
+    hlock = open(os.path.join(CACHE, 'lock-tree-%s-%s' % (config, h)), 'w')
+    fcntl.flock(hlock, fcntl.LOCK_EX)
+    slot_f = None
+    try:
         if os.path.exists(out) and os.path.getsize(out) > 1000:
             return out, info
         info['cached'] = False
-        tgt = os.path.join(CACHE, 'tgt-%s' % config)
+        slot, slot_f = _take_slot()
+        tgt = os.path.join(CACHE, 'tgt-%s' % config if slot == 0 else 'tgt-%s-s%d' % (config, slot))
         # never let cargo's freshness cache replay an old analysis of the primary package
         for p in glob.glob(os.path.join(tgt, 'debug', '.fingerprint', 'raqote-*')):
             shutil.rmtree(p, ignore_errors=True)
@@ -112,17 +144,26 @@ def extract(config='default'):
         if not os.path.exists(tmp_out):
             raise ExtractError('driver did not write a fact file (config %s); cargo said:\n%s' % (config, r.stdout[-2000:]))
         os.replace(tmp_out, out)
-        # prune old fact files (keep the 12 newest)
+        # prune old fact files and the per-tree lock files that belong to them
         olds = sorted(glob.glob(os.path.join(CACHE, 'facts-*.json')), key=os.path.getmtime)
-        for p in olds[:-12]:
+        for p in olds[:-KEEP_FACTS]:
             try:
                 os.remove(p)
             except OSError:
                 pass
+        for p in glob.glob(os.path.join(CACHE, 'lock-tree-*')):
+            try:
+                if time.time() - os.path.getmtime(p) > 3600:
+                    os.remove(p)
+            except OSError:
+                pass
         return out, info
     finally:
-        fcntl.flock(lock, fcntl.LOCK_UN)
-        lock.close()
+        if slot_f is not None:
+            fcntl.flock(slot_f, fcntl.LOCK_UN)
+            slot_f.close()
+        fcntl.flock(hlock, fcntl.LOCK_UN)
+        hlock.close()
 
 
 def dep_source(repo, pkg):
